@@ -215,6 +215,16 @@ _CONTAINER_MUTATORS = ('append', 'extend', 'insert', 'pop', 'remove', 'clear', '
                        'add', 'discard', 'sort', 'reverse', '__setitem__', '__delitem__')
 
 
+def _raised_inside_numpy(e):
+    """the innermost frame of the exception is numpy's own code: numpy rejected the (formal) arrays of the analysed
+    program exactly as it would reject the real ones (shape mismatch, bad axis, ...)"""
+    tb = e.__traceback__
+    while tb.tb_next is not None:
+        tb = tb.tb_next
+    fn = tb.tb_frame.f_code.co_filename
+    return '/numpy/' in fn or fn.startswith('<__array_function__')
+
+
 class Transparent:
     """analyser-provided stand-in whose attributes are read as they are (inspect.Signature, BoundArguments)"""
 
@@ -457,7 +467,8 @@ class Libs:
             'full_like': lambda x, fill_value, dtype=None, **k: ops.retag_dims(self._full(x.shape, fill_value, tag=self._dtype_tag(dtype, x.dtype), device=x.device), x.dims),
             'swapdims': self._torch_transpose,
             'movedim': self._movedim, 'moveaxis': self._movedim, 'permute': lambda x, dims: ops.permute(x, list(dims)),
-            'empty': self._torch_zeros, 'empty_like': self._zeros_like, 'flatten': self._flatten,
+            'empty': self._torch_empty, 'empty_like': self._empty_like, 'ones': self._ones, 'ones_like': self._ones_like,
+            'flatten': self._flatten,
             'squeeze': lambda x, dim=None: self.interp.getattr(x, 'squeeze')(dim) if dim is not None else self.interp.getattr(x, 'squeeze')(),
             'unsqueeze': lambda x, dim: self.interp.getattr(x, 'unsqueeze')(dim),
             'repeat_interleave': self._repeat_interleave, 'chunk': self._torch_chunk, 'split': self._torch_split, 'narrow': self._torch_narrow,
@@ -889,7 +900,7 @@ class Libs:
             except (TypeError, ValueError, IndexError, KeyError, ZeroDivisionError, AttributeError) as e:
                 # an exception of the analysed program only if it comes from a real library function or
                 # from the call boundary itself (bad arguments); anything deeper is a bug in the analyser
-                if foreign or e.__traceback__.tb_next is None:
+                if foreign or e.__traceback__.tb_next is None or _raised_inside_numpy(e):
                     raise PyExc(type(e).__name__, str(e), loc=self.interp.loc())
                 raise
         raise PyExc('TypeError', '%s object is not callable' % type(f).__name__, loc=self.interp.loc())
@@ -1123,7 +1134,30 @@ class Libs:
             size = (size,)
         if is_const_scalar(fill_value) and fill_value == 0:
             return ops.zeros(tuple(size), tag, device=device)
+        if is_const_scalar(fill_value):
+            return ops.opaque(tuple(size), tag, 'const', 'constant(%r)' % (fill_value,), device=device)
         raise AnalysisError('unsupported', 'constant tensor filled with %r at %s' % (fill_value, self.interp.loc()))
+
+    def _torch_empty(self, *size, dtype=None, device=None, requires_grad=False, **k):
+        if len(size) == 1 and isinstance(size[0], (tuple, list)):
+            size = tuple(size[0])
+        return ops.opaque(tuple(size), self._dtype_tag(dtype, 'default'), 'uninit', 'uninitialised memory', device=device)
+
+    def _empty_like(self, x, dtype=None, device=None, **k):
+        if not isinstance(x, DataT):
+            raise AnalysisError('unsupported', 'empty_like of %s' % type(x).__name__)
+        return ops.opaque(x.shape, self._dtype_tag(dtype, x.dtype), 'uninit', 'uninitialised memory', device=x.device,
+                          like_dims=x.dims)
+
+    def _ones(self, *size, dtype=None, device=None, requires_grad=False, **k):
+        if len(size) == 1 and isinstance(size[0], (tuple, list)):
+            size = tuple(size[0])
+        return self._full(size, 1, tag=self._dtype_tag(dtype, 'default'), device=device)
+
+    def _ones_like(self, x, dtype=None, **k):
+        if not isinstance(x, DataT):
+            raise AnalysisError('unsupported', 'ones_like of %s' % type(x).__name__)
+        return ops.opaque(x.shape, self._dtype_tag(dtype, x.dtype), 'const', 'constant(1)', device=x.device, like_dims=x.dims)
 
     def _xstack(self, ts, min_dim, axis):
         ts = list(self.iterate(ts))
